@@ -8,6 +8,16 @@ CLAIMED = {
    note='Theorems are about the Coq model (coq/Model/SR.v, Tokenize.v, Eval.v); tie = translator gen/ + correspondence harness; string-level rendering theorem covers the tokenizer; str.lower final-sigma context is outside the model.',
    technique='Coq proof (induction over the grammar, stack invariant) + generated reducer table + differential correspondence',
    design='6 C01'),
+ 'C02': dict(
+   text='Proof (Coq): parser soundness (whatever the generated-table parser reduces to a single value is the tree of a sentence), hence every non-empty non-sentence is the always-deny check, loading is total on rule-shaped values and yields a check (never a raw token: F1 repair re-proved against the generated rejection list), any other value shape is the always-deny check (F2 repair flag read from source); differential: all token sequences <= 5, one-token rules, corruptions, random Unicode strings and every JSON/YAML value shape through from_dict/JSON/YAML load against Enforcer.enforce for a spread of credentials.',
+   note='Model of parse_rule/_parse_list_rule shape validation tied by translator (textual shape check) and correspondence; YAML/JSON decoding by the libraries is an oracle.',
+   technique='Coq proof (stack-covering invariant for soundness) + generated tables + differential correspondence',
+   design='6 C02'),
+ 'C03': dict(
+   text='Proof (Coq): Rules.__missing__ is translated from source into a decision tree on every run and the store lookup is proved equal to the documented table for every rule set, default-rule configuration and name; enforce on an unresolvable name or an empty rule set returns False; a resolvable name is decided by exactly the resolved check under the enforced name. Differential: complete table over a 3-4 name universe x 9 default configurations x queried names x role subsets, model vs Enforcer.enforce vs an independent reading of the statement.',
+   note='Decision-tree translator (gen/dtree.py) and its atom map are trusted; the atoms are interpreted by Model.Eval.missing_env.',
+   technique='Coq proof by evaluation of the generated decision tree + differential correspondence',
+   design='6 C03'),
 }
 REASON_PENDING = 'check not built yet in this session (model/theorems in progress); not claimed'
 def main():
